@@ -83,7 +83,7 @@ def run(ctx):
     for case, rng in ctx.cases(ctx.n(250, 10000), stream='grammar'):
         spec = {'case': case, 'part': 'grammar'}
         ctx.run_case(spec, grammar_block, obs, rng, spec)
-    for case, rng in ctx.cases(ctx.n(96, 2400), stream='cli'):
+    for case, rng in ctx.cases(ctx.n(96, 4000), stream='cli'):
         conv = CONVENTIONS[case % len(CONVENTIONS)]
         spec = {'case': case, 'part': 'cli', 'convention': conv}
         ctx.run_case(spec, one_dataset, obs, rng, conv, spec, 'in-process')
